@@ -206,12 +206,32 @@ func TestW2Meta(t *testing.T) {
 			// the tunnel is opened with metadata of its own (credentials, ids): no RPC may see it as ITS request metadata
 			ctx, cancel := context.WithCancel(metadata.AppendToOutgoingContext(context.Background(), "authorization", "tunnel-secret", "tunnel-id", "42"))
 			defer cancel()
-			ch, err := grpctunnel.NewChannel(mw.stub).Start(ctx)
-			if err != nil {
-				t.Fatalf("start: %v", err)
+			// half of the scenarios run over a REVERSE tunnel, through the round-robin channel of the network server
+			var ch grpc.ClientConnInterface
+			via := "fwd"
+			if rng.Intn(2) == 0 {
+				via = "rev"
+				rts := grpctunnel.NewReverseTunnelServer(mw.stub)
+				rts.RegisterService(mw.desc(), struct{}{})
+				go func() { _, _ = rts.Serve(ctx) }()
+				synctest.Wait()
+				rch := mw.handler.AsChannel()
+				wctx, wcancel := context.WithTimeout(context.Background(), 5*time.Second)
+				if err := rch.WaitForReady(wctx); err != nil {
+					wcancel()
+					t.Fatalf("reverse tunnel not ready: %v", err)
+				}
+				wcancel()
+				ch = rch
+			} else {
+				fch, err := grpctunnel.NewChannel(mw.stub).Start(ctx)
+				if err != nil {
+					t.Fatalf("start: %v", err)
+				}
+				ch = fch
 			}
 			synctest.Wait()
-			ops.add("meta.init", "ok")
+			ops.add("meta.init via="+via, "ok")
 			for j := 0; j < 6; j++ {
 				id++
 				c := &metaCase{id: id, shape: []string{"U", "B"}[rng.Intn(2)], code: codes.Code(rng.Intn(17)),
@@ -244,7 +264,7 @@ func TestW2Meta(t *testing.T) {
 	}
 }
 
-func (mw *metaWorld) runCase(ch grpctunnel.TunnelChannel, c *metaCase) (res string) {
+func (mw *metaWorld) runCase(ch grpc.ClientConnInterface, c *metaCase) (res string) {
 	defer func() {
 		if p := recover(); p != nil {
 			res = fmt.Sprintf("PANIC(%v)", p)
